@@ -625,9 +625,10 @@ func c14ExecInBubble(t *testing.T, p *Plan) (r *c14Result) {
 				// the log grows; the update that follows is held right before its COMMIT (as if the process were about to be killed
 				// there); whatever the service hands out meanwhile is noted; then the commit fails, the service is stopped and a new
 				// one started on the same file. What was handed out must still hold.
-				if m.dbPath == "" {
+				if m.dbPath == "" || !witnessed[l].Has || witnessed[l].Size < 1 {
 					continue
 				}
+				heldFrom := witnessed[l].Size
 				st.mu.Lock()
 				st.size += 1 + op.D
 				st.mu.Unlock()
@@ -635,9 +636,13 @@ func c14ExecInBubble(t *testing.T, p *Plan) (r *c14Result) {
 				var gmu sync.Mutex
 				armed, parked := true, false
 				prevFault := mainDrvFault
+				target, lastExec := w.Logs[l].ID, ""
 				mainDrvFault = func(dop, arg string) error {
 					gmu.Lock()
-					hit := armed && dop == "Commit"
+					if dop == "Exec" {
+						lastExec = arg // the one connection's latest write names the log its transaction is for
+					}
+					hit := armed && dop == "Commit" && lastExec == target
 					if hit {
 						armed, parked = false, true
 					}
@@ -669,6 +674,16 @@ func c14ExecInBubble(t *testing.T, p *Plan) (r *c14Result) {
 				}
 				close(gate)
 				mainDrvFault = prevFault
+				if wasParked {
+					// from now on the log serves another continuation of what the witness durably holds (it shares exactly the
+					// first heldFrom leaves): acceptable to a witness that handed out nothing newer, a split view otherwise
+					nb := st.tree.Fork(heldFrom, fmt.Sprintf("fork-after-lost-commit-op%d", oi))
+					w.Logs[l].Branches = append(w.Logs[l].Branches, nb)
+					st.mu.Lock()
+					st.tree = nb
+					st.mu.Unlock()
+					forked[l] = true
+				}
 				if err, ok := m.stop(); !ok {
 					add("not_caught_up", "main_did_not_stop", fmt.Sprintf("op %d: Main did not return within 120 simulated seconds of its context ending (%v)", oi, err))
 					return
